@@ -623,79 +623,82 @@ class Server(SocketInterface):
         with open(self.output_file_path, 'w') as fw:
             game_log_writer = JsonLogWriter(fw)
             game_log_writer.open()
-            for board_number in range(1, max_board_num):
-                cards, vul, dealer, board_id, dda = None, None, None, None, None
-                if self.board_settings is not None:
-                    board_setting: BoardSetting = self.board_settings[
-                        board_number - 1]
-                    cards = board_setting.hands
-                    dealer = board_setting.dealer
-                    vul = board_setting.vul
-                    board_id = board_setting.board_id
-                    dda = board_setting.dda
-                    logger.info(f'Load a board setting. Board id: {board_id}')
+            try:
+                for board_number in range(1, max_board_num):
+                    cards, vul, dealer, board_id, dda = None, None, None, None, None
+                    if self.board_settings is not None:
+                        board_setting: BoardSetting = self.board_settings[
+                            board_number - 1]
+                        cards = board_setting.hands
+                        dealer = board_setting.dealer
+                        vul = board_setting.vul
+                        board_id = board_setting.board_id
+                        dda = board_setting.dda
+                        logger.info(f'Load a board setting. Board id: {board_id}')
 
-                if cards is None:
-                    cards = Hands.generate_random_hands()
-                if vul is None:
-                    vul = random.choice(list(Vul))
-                if dealer is None:
-                    dealer = random.choice(list(Player))
-                if board_id is None:
-                    board_id = str(board_number)
+                    if cards is None:
+                        cards = Hands.generate_random_hands()
+                    if vul is None:
+                        vul = random.choice(list(Vul))
+                    if dealer is None:
+                        dealer = random.choice(list(Player))
+                    if board_id is None:
+                        board_id = str(board_number)
 
-                event_sync.clear()
-                self.deal(board_number, dealer, vul, cards, event_sync)
+                    event_sync.clear()
+                    self.deal(board_number, dealer, vul, cards, event_sync)
 
-                # TODO: Consider to deal with exception
-                contract, bid_history = self.bidding_phase(dealer, vul)
-                logger.info(f'Contract: {contract.str_info()}')
-                if contract.is_passed_out():
-                    play_history = None
-                    taken_trick_num = None
-                    score = 0
-                else:
-                    play_history, taken_trick_num = \
-                        self.playing_phase(contract, copy.deepcopy(cards))
+                    # TODO: Consider to deal with exception
+                    contract, bid_history = self.bidding_phase(dealer, vul)
+                    logger.info(f'Contract: {contract.str_info()}')
+                    if contract.is_passed_out():
+                        play_history = None
+                        taken_trick_num = None
+                        score = 0
+                    else:
+                        play_history, taken_trick_num = \
+                            self.playing_phase(contract, copy.deepcopy(cards))
 
-                    score = calc_score(contract, taken_trick_num)
-                    logger.info(f'Declarer\'s team takes {taken_trick_num} '
-                                f'tricks. '
-                                f'Contract: {contract.str_info()}. '
-                                f'Score: {score}.')
+                        score = calc_score(contract, taken_trick_num)
+                        logger.info(f'Declarer\'s team takes {taken_trick_num} '
+                                    f'tricks. '
+                                    f'Contract: {contract.str_info()}. '
+                                    f'Score: {score}.')
 
-                declarer = contract.declarer
-                scores: Dict[Pair, int]
-                if declarer is None:
-                    scores = {Pair.NS: 0, Pair.EW: 0}
-                else:
-                    scores = {declarer.pair: score,
-                              declarer.pair.opponent_pair: -score}
+                    declarer = contract.declarer
+                    scores: Dict[Pair, int]
+                    if declarer is None:
+                        scores = {Pair.NS: 0, Pair.EW: 0}
+                    else:
+                        scores = {declarer.pair: score,
+                                  declarer.pair.opponent_pair: -score}
 
-                game_log_writer.write(
-                    board_id=board_id,
-                    west_player=ew_team_name,
-                    north_player=ns_team_name,
-                    east_player=ew_team_name,
-                    south_player=ns_team_name,
-                    dealer=dealer,
-                    deal=cards,
-                    scoring=Scoring.IMP,
-                    bid_history=bid_history,
-                    contract=contract,
-                    play_history=play_history,
-                    taken_trick_num=taken_trick_num,
-                    scores=scores,
-                    dda=dda)
+                    game_log_writer.write(
+                        board_id=board_id,
+                        west_player=ew_team_name,
+                        north_player=ns_team_name,
+                        east_player=ew_team_name,
+                        south_player=ns_team_name,
+                        dealer=dealer,
+                        deal=cards,
+                        scoring=Scoring.IMP,
+                        bid_history=bid_history,
+                        contract=contract,
+                        play_history=play_history,
+                        taken_trick_num=taken_trick_num,
+                        scores=scores,
+                        dda=dda)
 
-                if board_number == max_board_num - 1:
-                    break
+                    if board_number == max_board_num - 1:
+                        break
 
-                for player in Player:
-                    self.sent_message_queues[player].put(
-                        self.Message.NEXT_BOARD)
+                    for player in Player:
+                        self.sent_message_queues[player].put(
+                            self.Message.NEXT_BOARD)
 
-            game_log_writer.close()
+            finally:
+                # close the log also when the session is abandoned
+                game_log_writer.close()
             for player in Player:
                 self.sent_message_queues[player].put(self.Message.END_SESSION)
 
